@@ -1592,6 +1592,22 @@ type NewValidBlockMessage struct {
 	IsCommit           bool
 }
 
+// validateBitArray checks what BitArray.FromProto does not: that the element
+// slice matches the bit count. A bit array that fails this check makes
+// SetIndex/GetIndex/PickRandom index out of range.
+func validateBitArray(name string, bA *bits.BitArray) error {
+	if bA == nil {
+		return nil
+	}
+	if bA.Bits < 0 {
+		return fmt.Errorf("%s has negative size %d", name, bA.Bits)
+	}
+	if want := (bA.Bits + 63) / 64; len(bA.Elems) != want {
+		return fmt.Errorf("%s of size %d has %d elements, expected %d", name, bA.Bits, len(bA.Elems), want)
+	}
+	return nil
+}
+
 // ValidateBasic performs basic validation.
 func (m *NewValidBlockMessage) ValidateBasic() error {
 	if m.Height < 0 {
@@ -1602,6 +1618,9 @@ func (m *NewValidBlockMessage) ValidateBasic() error {
 	}
 	if err := m.BlockPartSetHeader.ValidateBasic(); err != nil {
 		return fmt.Errorf("wrong BlockPartSetHeader: %v", err)
+	}
+	if err := validateBitArray("blockParts", m.BlockParts); err != nil {
+		return err
 	}
 	if m.BlockParts.Size() == 0 {
 		return errors.New("empty blockParts")
@@ -1656,6 +1675,9 @@ func (m *ProposalPOLMessage) ValidateBasic() error {
 	}
 	if m.ProposalPOLRound < 0 {
 		return errors.New("negative ProposalPOLRound")
+	}
+	if err := validateBitArray("proposalPOL", m.ProposalPOL); err != nil {
+		return err
 	}
 	if m.ProposalPOL.Size() == 0 {
 		return errors.New("empty ProposalPOL bit array")
@@ -1801,6 +1823,9 @@ func (m *VoteSetBitsMessage) ValidateBasic() error {
 	}
 	if err := m.BlockID.ValidateBasic(); err != nil {
 		return fmt.Errorf("wrong BlockID: %v", err)
+	}
+	if err := validateBitArray("votes", m.Votes); err != nil {
+		return err
 	}
 	// NOTE: Votes.Size() can be zero if the node does not have any
 	if m.Votes.Size() > types.MaxVotesCount {
